@@ -13,12 +13,16 @@ package main
 //   u<c>:<id>:<p>          reply with wire id `id`, payload nonce p on connection c (unsolicited/dup/late)
 //   c<E>                   cancel E's context
 //   x<c>                   the server closes connection c (stalled writes on it fail, the others complete)
+//   t<c>                   the idle timeout (read deadline) of connection c expires while its read loop waits
+//   F<c>:<id>:<p>:<iid>:<ip>.. one frame: reply (id, p) whose rdata embeds well-formed framed replies (iid, ip)
+//   A<c>:...  / Z<c>       the same frame in two parts: up to the embedded replies / the rest (tcp)
 //   g / o                  the server stops / resumes reading: writes stall inside the fake connection (on tcp the
 //                          write lock stays taken: later exchanges are registered and wait for it) / complete
 //   f<k>                   the stalled writes fail (k=1 on udp: EMSGSIZE, the connection stays open)
 //   pre=<n>: n sequential exchanges (query, correct reply, return) before the ops, summarised.
 // out  : pre=<n>:<maxid+1>:<uniq>+...;<wrong messages>;<errors> log=<group>|<group>|...  (one group per op)
 //   q<E>:<c>:<id>  i<c>:<id>:<p>|i-  m<E>:<ID>:<p>  e<E>:cancel|err  x<c>|x-  t<E>
+//   a<c> part of a frame written   n<c> the client kept connection c after a read timeout (harness only)
 //   w<E>:<c>:<id> E's write (wire id id) is stalled   b<E> E is registered and waits for the tcp write lock
 //   plus a last group: k<c> for every exhausted connection the client closed (end of life)
 
@@ -30,6 +34,7 @@ import (
 	"io"
 	"math/rand"
 	"net"
+	"os"
 	"runtime"
 	"sort"
 	"strings"
@@ -86,6 +91,11 @@ type c05held struct {
 
 type c05inj struct{ c, id, op int }
 
+type c05part struct {
+	id, p int
+	rest  []byte
+}
+
 type c05world struct {
 	mu    sync.Mutex
 	cond  *sync.Cond
@@ -119,6 +129,12 @@ type c05conn struct {
 	wbuf      []byte
 	held      []*c05held
 	wbroken   bool // writes fail from now on
+	// a frame of which only a prefix was written so far (tcp)
+	part *c05part
+	// virtual read deadline: the harness lets the idle timeout expire
+	dlFire    bool // the blocked Read returns os.ErrDeadlineExceeded
+	dlSeen    bool // ... it did
+	readAgain bool // the client called Read again after that (instead of closing the connection)
 	// prefix statistics
 	nq    int
 	maxid int
@@ -156,7 +172,7 @@ func (w *c05world) dial(ctx context.Context) (net.Conn, error) {
 
 // wait blocks (w.mu held) until pred() or the timeout.
 func (w *c05world) wait(pred func() bool) bool {
-	d := 2 * time.Second
+	d := 10 * time.Second // generous: the machine may be heavily loaded; the unchanged code never gets here
 	if c05timeouts.Load() >= 3 {
 		d = 25 * time.Millisecond // something is badly wrong already: do not crawl
 	}
@@ -179,6 +195,10 @@ func (c *c05conn) Read(b []byte) (int, error) {
 	w := c.w
 	w.mu.Lock()
 	defer w.mu.Unlock()
+	if c.dlSeen && !c.readAgain {
+		c.readAgain = true
+		w.cond.Broadcast()
+	}
 	for {
 		if c.cliClosed {
 			return 0, net.ErrClosed
@@ -198,6 +218,13 @@ func (c *c05conn) Read(b []byte) (int, error) {
 		}
 		if c.srvClosed {
 			return 0, io.EOF
+		}
+		if c.dlFire {
+			// the idle timeout (the read deadline the client armed) expires
+			c.dlFire = false
+			c.dlSeen = true
+			w.cond.Broadcast()
+			return 0, os.ErrDeadlineExceeded
 		}
 		c.reading = true
 		w.cond.Broadcast()
@@ -376,6 +403,24 @@ func c05reply(id, nonce int, q []byte) []byte {
 	return b
 }
 
+// c05big: a reply (wire id, nonce) with a second answer, a TXT record whose single string consists of
+// well-formed length-prefixed replies (inner: pairs of wire id, nonce). Returns the message and the
+// offset at which the string's data starts.
+func c05big(id, nonce int, inner [][2]int) ([]byte, int) {
+	b := c05reply(id, nonce, nil)
+	b[7] = 2 // ANCOUNT
+	var data []byte
+	for _, in := range inner {
+		data = append(data, c05frame(true, c05reply(in[0], in[1], nil))...)
+	}
+	b = append(b, 0xc0, 12, 0, 16, 0, 1, 0, 0, 0, 0)
+	b = binary.BigEndian.AppendUint16(b, uint16(1+len(data)))
+	b = append(b, byte(len(data)))
+	off := len(b)
+	b = append(b, data...)
+	return b, off
+}
+
 func c05frame(tcp bool, m []byte) []byte {
 	if !tcp {
 		return m
@@ -398,7 +443,7 @@ func c05classify(r *dnsmsg.Msg, err error, q []byte, cid int) *c05res {
 	res.ok = true
 	res.id = int(r.Header.ID)
 	res.nonce = -1
-	if len(r.Answers) == 1 {
+	if len(r.Answers) >= 1 {
 		res.nonce = int(r.Answers[0].Hdr().TTL)
 	}
 	return res
@@ -415,8 +460,8 @@ type c05gate struct {
 func (g *c05gate) pass() {
 	g.arrived.Add(1)
 	for i := 0; !g.open.Load(); i++ {
-		if i > 1<<22 {
-			runtime.Gosched()
+		if i > 1<<12 {
+			runtime.Gosched() // do not burn a processor for long (other checks may be running)
 		}
 	}
 }
@@ -487,7 +532,7 @@ func (w *c05world) started(x *c05ex, nq, nheld int) bool {
 
 // after started(): classify a lock waiter (w.mu held)
 func (w *c05world) noteBlocked(x *c05ex, nq, nheld int) {
-	if x.nq == nq && x.res == nil && x.nheld == nheld {
+	if w.gated && w.tcp && x.inWriteTCP && x.nq == nq && x.res == nil && x.nheld == nheld {
 		x.blocked = true
 		x.regOp = w.opIdx
 		x.last = [2]int{w.heldConn(), -1}
@@ -587,11 +632,24 @@ func (w *c05world) open(e int) bool {
 func (w *c05world) inject(ci, id, p int, q []byte) []string {
 	// (whether the client has closed the connection meanwhile is deliberately not consulted: it closes
 	// connections asynchronously, and a connection it closes has no exchange left that could be affected)
-	if ci < 0 || ci >= len(w.conns) || w.conns[ci].srvClosed {
-		return []string{"i-"}
+	if ci < 0 || ci >= len(w.conns) || w.conns[ci].srvClosed || w.conns[ci].part != nil {
+		return []string{"i-"} // (a server does not interleave frames)
 	}
+	return w.injectBytes(ci, id, p, c05frame(w.tcp, c05reply(id, p, q)), true)
+}
+
+// quiesce: the read loop of c is back in Read with nothing left to consume (w.mu held)
+func (w *c05world) quiesce(c *c05conn) bool {
+	return w.wait(func() bool { return c.cliClosed || (len(c.in) == 0 && len(c.rest) == 0 && c.reading) })
+}
+
+// injectBytes hands bytes to the client on connection ci; whole: they complete the reply (id, p)
+func (w *c05world) injectBytes(ci, id, p int, bytes []byte, whole bool) []string {
 	c := w.conns[ci]
-	toks := []string{fmt.Sprintf("i%d:%d:%d", ci, id, p)}
+	var toks []string
+	if whole {
+		toks = []string{fmt.Sprintf("i%d:%d:%d", ci, id, p)}
+	}
 	// which open exchange is expected to complete?
 	expect := -1
 	for e, x := range w.exs {
@@ -600,11 +658,15 @@ func (w *c05world) inject(ci, id, p int, q []byte) []string {
 			expect = e
 		}
 	}
-	w.inj = append(w.inj, c05inj{ci, id, w.opIdx})
-	c.in = append(c.in, c05frame(w.tcp, c05reply(id, p, q)))
+	if !whole {
+		expect = -1
+	} else {
+		w.inj = append(w.inj, c05inj{ci, id, w.opIdx})
+	}
+	c.in = append(c.in, bytes)
 	w.cond.Broadcast()
 	// barrier: the read loop is back in Read with nothing left to consume
-	if !w.wait(func() bool { return c.cliClosed || (len(c.in) == 0 && len(c.rest) == 0 && c.reading) }) {
+	if !w.quiesce(c) {
 		toks = append(toks, fmt.Sprintf("t%d", 1000000+ci))
 	}
 	if expect >= 0 {
@@ -681,7 +743,11 @@ func (w *c05world) openGate() []string {
 }
 
 // connection ci dies: the server closes it (viaWrite: a stalled write on it fails first) (w.mu held)
-func (w *c05world) killConn(ci int, viaWrite bool) []string {
+func (w *c05world) killConn(ci int, viaWrite bool) []string { return w.killConnMode(ci, viaWrite, false) }
+
+// viaDeadline: nothing is closed by the server; the idle timeout of the client's blocked Read expires and
+// the client is expected to close the connection itself
+func (w *c05world) killConnMode(ci int, viaWrite, viaDeadline bool) []string {
 	c := w.conns[ci]
 	toks := []string{fmt.Sprintf("x%d", ci)}
 	type vic struct {
@@ -695,6 +761,18 @@ func (w *c05world) killConn(ci int, viaWrite bool) []string {
 		}
 	}
 	sort.Slice(vs, func(i, j int) bool { return vs[i].x.e < vs[j].x.e })
+	if viaDeadline {
+		c.dlFire, c.dlSeen, c.readAgain = true, false, false
+		w.cond.Broadcast()
+		if !w.wait(func() bool { return c.cliClosed || c.readAgain }) {
+			return append(toks, fmt.Sprintf("t%d", 2000000+ci))
+		}
+		if !c.cliClosed {
+			// the client went on reading after the read error: it kept the connection
+			return []string{fmt.Sprintf("n%d", ci)}
+		}
+	}
+	c.part = nil
 	c.wbroken = true
 	nheld := len(c.held)
 	w.releaseHeld(ci, 2, io.ErrClosedPipe)
@@ -904,7 +982,7 @@ func c05runOnce(cs string) string {
 				if p := int32(runtime.GOMAXPROCS(0)) - 1; want > p {
 					want = p
 				}
-				for i := 0; gate.arrived.Load() < want && i < 1<<20; i++ {
+				for t0 := time.Now(); gate.arrived.Load() < want && time.Since(t0) < 2*time.Millisecond; {
 					runtime.Gosched()
 				}
 				gate.open.Store(true)
@@ -953,6 +1031,57 @@ func c05runOnce(cs string) string {
 				toks = w.killConn(ci, false)
 				if gated {
 					toks = append(toks, w.openGate()...)
+				}
+			}
+		case 't':
+			// the idle timeout of connection ci expires while its read loop waits for bytes
+			ci := atoi(op[1:])
+			if ci < 0 || ci >= len(w.conns) || w.conns[ci].srvClosed {
+				toks = []string{"x-"}
+			} else {
+				gated := w.gated
+				w.setGate(false)
+				toks = w.killConnMode(ci, false, true)
+				if gated {
+					toks = append(toks, w.openGate()...)
+				}
+			}
+		case 'F', 'A':
+			// F<c>:<id>:<p>[:<iid>:<ip>]...  one frame: a reply (id, p) whose rdata contains well-formed
+			//   length-prefixed replies (iid, ip)
+			// A...: only the part of that frame that precedes the embedded replies is written
+			a := c05parseNats(op[1:])
+			if len(a) < 3 || len(a)%2 == 0 || a[0] < 0 || a[0] >= len(w.conns) || w.conns[a[0]].srvClosed ||
+				w.conns[a[0]].part != nil || (op[0] == 'A' && !w.tcp) {
+				toks = []string{"i-"}
+				break
+			}
+			var inner [][2]int
+			for i := 3; i+1 < len(a); i += 2 {
+				inner = append(inner, [2]int{a[i], a[i+1]})
+			}
+			msg, off := c05big(a[1], a[2], inner)
+			if op[0] == 'F' {
+				toks = w.injectBytes(a[0], a[1], a[2], c05frame(w.tcp, msg), true)
+			} else {
+				fr := c05frame(true, msg)
+				w.conns[a[0]].part = &c05part{id: a[1], p: a[2], rest: fr[2+off:]}
+				toks = append([]string{fmt.Sprintf("a%d", a[0])}, w.injectBytes(a[0], a[1], a[2], fr[:2+off], false)...)
+			}
+		case 'Z':
+			// the rest of the frame begun by A
+			ci := atoi(op[1:])
+			if ci < 0 || ci >= len(w.conns) || w.conns[ci].srvClosed || w.conns[ci].part == nil {
+				toks = []string{"i-"}
+			} else {
+				c := w.conns[ci]
+				pt := c.part
+				c.part = nil
+				// (a client that resumed reading inside the frame will not see this reply: expect nothing)
+				toks = w.injectBytes(ci, pt.id, pt.p, pt.rest, !c.readAgain)
+				if c.readAgain {
+					toks = append([]string{fmt.Sprintf("i%d:%d:%d", ci, pt.id, pt.p)}, toks...)
+					w.inj = append(w.inj, c05inj{ci, pt.id, w.opIdx})
 				}
 			}
 		case 'g':
@@ -1287,6 +1416,85 @@ func c05stall(r *rand.Rand, tcp bool) string {
 	return fmt.Sprintf("tcp=%s mc=64 pre=0 ops=%s", b2s(tcp), g.finish())
 }
 
+// c05frames: big frames whose rdata embeds well-formed framed replies for other in-flight (or never
+// asked) wire ids; whole, or in two parts with other events in between (the stall is shorter than the idle
+// timeout: everything must still be delivered correctly), or in two parts with the idle timeout expiring
+// in the middle of the frame (the client must drop the connection, never resume inside the frame).
+// One connection, started one by one: exchange number n gets wire id n.
+func c05frames(r *rand.Rand, tcp bool) string {
+	g := &c05gen{r: r, lastP: map[int]int{}, maxE: 1 << 30, conns: 1}
+	add := func(f string, a ...any) { g.ops = append(g.ops, fmt.Sprintf(f, a...)) }
+	var open []int // exchanges in flight on connection 0; exchange e has wire id e
+	start := func() {
+		open = append(open, g.nextE)
+		add("s%s", g.start())
+	}
+	for i := 2 + r.Intn(5); i > 0; i-- {
+		start()
+	}
+	conn := 0
+	frame := func() string {
+		outer := open[r.Intn(len(open))]
+		if r.Intn(5) == 0 {
+			outer = g.nextE + 3 + r.Intn(4) // a reply nobody asked for
+		}
+		s := fmt.Sprintf("%d:%d:%d", conn, outer, g.nonce())
+		for i := 1 + r.Intn(4); i > 0; i-- {
+			in := open[r.Intn(len(open))]
+			if r.Intn(4) == 0 {
+				in = g.nextE + r.Intn(6) // never asked (yet)
+			}
+			s += fmt.Sprintf(":%d:%d", in, g.nonce())
+		}
+		return s
+	}
+	for round := 1 + r.Intn(3); round > 0 && conn == 0; round-- {
+		switch v := r.Intn(7); {
+		case v == 0:
+			add("F%s", frame())
+		case v <= 2 && tcp: // a stall inside the frame that is shorter than the idle timeout
+			add("A%s", frame())
+			for i := r.Intn(3); i > 0; i-- {
+				switch r.Intn(3) {
+				case 0:
+					start()
+				case 1:
+					add("c%d", open[r.Intn(len(open))])
+				default:
+					add("u%d:%d:%d", conn, open[r.Intn(len(open))], g.nonce()) // refused: i-
+				}
+			}
+			add("Z%d", conn)
+		case v <= 5 && tcp: // the idle timeout expires inside the frame
+			add("A%s", frame())
+			if r.Intn(3) == 0 {
+				start()
+			}
+			add("t%d", conn)
+			add("Z%d", conn)
+			conn = 1
+		default: // the idle timeout expires between frames, exchanges in flight
+			add("t%d", conn)
+			conn = 1
+		}
+		for i := r.Intn(3); i > 0; i-- {
+			add("r%d:%d", open[r.Intn(len(open))], g.nonce())
+		}
+	}
+	// everybody gets an answer (wherever the exchange is now), then fresh exchanges
+	for _, e := range open {
+		if r.Intn(4) > 0 {
+			add("r%d:%d", e, g.nonce())
+		}
+	}
+	for i := 2 + r.Intn(4); i > 0; i-- {
+		e := g.nextE
+		add("s%s", g.start())
+		add("r%d:%d", e, g.nonce())
+	}
+	return fmt.Sprintf("tcp=%s mc=64 pre=0 ops=%s", b2s(tcp), g.finish())
+}
+
 func c05gen_(r *rand.Rand, thorough bool, emit func(c, cat string)) {
 	n := 1200
 	if thorough {
@@ -1321,6 +1529,19 @@ func c05gen_(r *rand.Rand, thorough bool, emit func(c, cat string)) {
 			cat = "tcp"
 		}
 		emit(c05stall(r, tcp), cat+"-stall")
+	}
+	// frames: idle timeouts, also in the middle of a frame that embeds framed replies
+	nf := 80
+	if thorough {
+		nf = 1500
+	}
+	for i := 0; i < nf; i++ {
+		tcp := r.Intn(4) > 0
+		cat := "udp"
+		if tcp {
+			cat = "tcp"
+		}
+		emit(c05frames(r, tcp), cat+"-frames")
 	}
 	// wide: several hundred exchanges in flight on one connection (wire ids beyond one byte)
 	nw := 4
